@@ -159,6 +159,7 @@ func Setup() *Env {
 				}
 			}
 		}
+		holdBulkCache()
 		e.Kessoku = filepath.Join(e.Work, "bin", "kessoku")
 		e.SyncVer = syncVersion()
 		unlock := e.Lock("build-cli")
@@ -221,7 +222,35 @@ func (e *Env) Lock(name string) func() {
 // per run). It is reset when it has served several corpus builds or when disk space runs low.
 var BulkCache = filepath.Join(VerifRoot, "work", "gocache")
 
+var bulkLock *os.File
+
+// holdBulkCache takes a shared advisory lock for the life of the process: a reset of the bulk cache
+// needs the exclusive lock, so it never happens under a check that is still building from it.
+func holdBulkCache() {
+	if bulkLock != nil {
+		return
+	}
+	_ = os.MkdirAll(filepath.Join(VerifRoot, "work"), 0o755)
+	f, err := os.OpenFile(filepath.Join(VerifRoot, "work", "gocache.lock"), os.O_CREATE|os.O_RDWR, 0o644)
+	if err != nil {
+		return
+	}
+	if syscall.Flock(int(f.Fd()), syscall.LOCK_SH) == nil {
+		bulkLock = f
+	}
+}
+
 func maintainBulkCache() {
+	holdBulkCache()
+	if bulkLock != nil {
+		// upgrade to exclusive without blocking; if another check holds the cache, do not reset now
+		if err := syscall.Flock(int(bulkLock.Fd()), syscall.LOCK_EX|syscall.LOCK_NB); err != nil {
+			_ = syscall.Flock(int(bulkLock.Fd()), syscall.LOCK_SH)
+			_ = os.MkdirAll(BulkCache, 0o755)
+			return
+		}
+		defer syscall.Flock(int(bulkLock.Fd()), syscall.LOCK_SH)
+	}
 	uses := filepath.Join(BulkCache, ".uses")
 	n := 0
 	if b, err := os.ReadFile(uses); err == nil {
